@@ -80,12 +80,14 @@ func newConditionLocker() *conditionLocker {
 func (c *conditionLocker) lock() {
 	c.lockMu.Lock()
 	c.bLock = true
+	verifPoint("cl.lock", c)
 	c.lockMu.Unlock()
 }
 
 func (c *conditionLocker) unlock() {
 	c.lockMu.Lock()
 	c.bLock = false
+	verifPoint("cl.unlock", c)
 	c.lockMu.Unlock()
 	c.lockCnd.Broadcast()
 }
@@ -93,8 +95,10 @@ func (c *conditionLocker) unlock() {
 func (c *conditionLocker) waitIfLock() {
 	c.lockMu.Lock()
 	for c.bLock {
+		verifPoint("cl.block", c)
 		c.lockCnd.Wait()
 	}
+	verifPoint("cl.pass", c)
 	c.lockMu.Unlock()
 }
 
@@ -248,6 +252,7 @@ func (s *SecureChannel) getActiveChannelInstance() (*channelInstance, error) {
 	if s.activeInstance == nil {
 		return nil, errors.Errorf("sechan: secure channel not open.")
 	}
+	verifPoint("active.get", s.activeInstance)
 	return s.activeInstance, nil
 }
 
@@ -265,6 +270,7 @@ func (s *SecureChannel) dispatcher() {
 			return
 		default:
 			msg := s.Receive(ctx)
+			verifPoint("dispatch.recv", msg)
 			if msg.Err != nil {
 				select {
 				case <-s.closing:
@@ -288,6 +294,7 @@ func (s *SecureChannel) dispatcher() {
 			}
 
 			ch, ok := s.popHandler(msg.RequestID)
+			verifPoint("dispatch.afterPop", msg.RequestID, ok)
 
 			if !ok {
 				debug.Printf("uasc %d/%d: no handler for %T", s.c.ID(), msg.RequestID, msg.body)
@@ -296,18 +303,23 @@ func (s *SecureChannel) dispatcher() {
 
 			// HACK
 			if _, ok := msg.Response().(*ua.OpenSecureChannelResponse); ok {
+				verifPoint("dispatch.beforeRcvLock", msg.RequestID)
 				s.rcvLocker.lock()
 			}
 
 			debug.Printf("uasc %d/%d: sending %T to handler", s.c.ID(), msg.RequestID, msg.body)
+			verifPoint("dispatch.beforeSend", msg.RequestID, msg)
 			select {
 			case ch <- msg:
 			default:
 				// this should never happen since the chan is of size one
+				verifPoint("dispatch.sendFull", msg.RequestID)
 				debug.Printf("uasc %d/%d: unexpected state. channel write should always succeed.", s.c.ID(), msg.RequestID)
 			}
 
+			verifPoint("dispatch.beforeWait", msg.RequestID)
 			s.rcvLocker.waitIfLock()
+			verifPoint("dispatch.afterWait", msg.RequestID)
 		}
 	}
 }
@@ -500,6 +512,7 @@ func (s *SecureChannel) readChunk() (*MessageChunk, error) {
 			}
 
 			s.openingInstance.algo = algo
+			verifPoint("srvopn.readAsym", s.openingInstance)
 		}
 
 		decryptWith = s.openingInstance
@@ -633,6 +646,7 @@ func (s *SecureChannel) open(ctx context.Context, instance *channelInstance, req
 		// be raised on the server? can the sequenceNumber be as "global" as the request ID?
 		s.openingInstance.sequenceNumber = instance.sequenceNumber
 		s.openingInstance.secureChannelID = instance.secureChannelID
+		verifPoint("open.copySeq", instance, s.openingInstance, instance.sequenceNumber)
 	}
 
 	// trigger cleanup after we are all done
@@ -699,6 +713,7 @@ func (s *SecureChannel) handleOpenSecureChannelResponse(resp *ua.OpenSecureChann
 	)
 
 	s.activeInstance = instance
+	verifPoint("open.install", instance, instance.securityTokenID, instance.sequenceNumber)
 
 	debug.Printf("uasc %d: received security token. channelID=%d tokenID=%d createdAt=%s lifetime=%s", s.c.ID(), instance.secureChannelID, instance.securityTokenID, instance.createdAt.Format(time.RFC3339), instance.revisedLifetime)
 
@@ -783,6 +798,7 @@ func (s *SecureChannel) handleOpenSecureChannelRequest(reqID uint32, svc ua.Requ
 
 	instance := s.openingInstance
 	instance.algo = algo
+	verifPoint("srvopn.asym", instance)
 	instance.sc.requestID = req.RequestHeader.RequestHandle // todo(fs): is this correct?
 
 	nonce := make([]byte, instance.algo.NonceLength())
@@ -811,11 +827,13 @@ func (s *SecureChannel) handleOpenSecureChannelRequest(reqID uint32, svc ua.Requ
 	if err := s.sendResponseWithContext(ctx, instance, reqID, resp); err != nil {
 		return err
 	}
+	verifPoint("srvopn.sent", instance)
 
 	instance.algo, err = uapolicy.Symmetric(s.cfg.SecurityPolicyURI, nonce, req.ClientNonce)
 	if err != nil {
 		return err
 	}
+	verifPoint("srvopn.sym", instance)
 	instance.SetMaximumBodySize(int(s.c.SendBufSize()))
 
 	instance.state = channelActive // todo(fs): is this correct?
@@ -838,6 +856,7 @@ func (s *SecureChannel) scheduleRenewal(instance *channelInstance) {
 	// clients will receive the new SecurityToken before the old one actually expire
 	const renewAfter = 0.75
 	when := time.Second * time.Duration(instance.revisedLifetime.Seconds()*renewAfter)
+	verifPoint("renew.schedule", instance, instance.revisedLifetime, when)
 
 	debug.Printf("uasc %d: security token is refreshed at %s (%s). channelID=%d tokenID=%d", s.c.ID(), time.Now().UTC().Add(when).Format(time.RFC3339), when, instance.secureChannelID, instance.securityTokenID)
 
@@ -856,11 +875,16 @@ func (s *SecureChannel) scheduleRenewal(instance *channelInstance) {
 
 func (s *SecureChannel) renew(instance *channelInstance) error {
 	// lock ensure no one else renews this at the same time
+	verifPoint("renew.begin", instance)
 	s.reqLocker.lock()
 	defer s.reqLocker.unlock()
+	verifPoint("renew.beforeWait", instance)
 	s.pendingReq.Wait()
+	verifPoint("renew.afterWait", instance)
 	instance.Lock()
 	defer instance.Unlock()
+	verifPoint("renew.lockedInst", instance)
+	defer verifPoint("renew.unlockInst", instance)
 
 	return s.open(context.Background(), instance, ua.SecurityTokenRequestTypeRenew)
 }
@@ -882,6 +906,8 @@ func (s *SecureChannel) scheduleExpiration(instance *channelInstance) {
 	case <-t.C:
 	}
 
+	verifPoint("expire.fired", instance.secureChannelID, instance.securityTokenID)
+	defer verifPoint("expire.done", instance.secureChannelID, instance.securityTokenID)
 	s.instancesMu.Lock()
 	defer s.instancesMu.Unlock()
 
@@ -914,9 +940,11 @@ func (s *SecureChannel) sendRequestWithTimeout(
 	h ResponseHandler) error {
 
 	s.pendingReq.Add(1)
+	verifPoint("send.pendAdd", reqID, instance)
 	respRequired := h != nil
 
 	ch, err := s.sendAsyncWithTimeout(ctx, req, reqID, instance, authToken, respRequired, timeout)
+	verifPoint("send.pendDone", reqID, instance)
 	s.pendingReq.Done()
 	if err != nil {
 		return err
@@ -929,15 +957,19 @@ func (s *SecureChannel) sendRequestWithTimeout(
 	// `+ timeoutLeniency` to give the server a chance to respond to TimeoutHint
 	timer := time.NewTimer(timeout + timeoutLeniency)
 	defer timer.Stop()
+	verifPoint("wait.begin", reqID, timeout+timeoutLeniency)
 
 	select {
 	case <-ctx.Done():
+		verifPoint("wait.ctxdone", reqID)
 		s.popHandler(reqID)
 		return ctx.Err()
 	case <-s.disconnected:
+		verifPoint("wait.disconnected", reqID)
 		s.popHandler(reqID)
 		return io.EOF
 	case msg := <-ch:
+		verifPoint("wait.msg", reqID, msg)
 		if msg.Err != nil {
 			if msg.Response() != nil {
 				_ = h(msg.Response()) // ignore result because msg.Err takes precedence
@@ -946,6 +978,7 @@ func (s *SecureChannel) sendRequestWithTimeout(
 		}
 		return h(msg.Response())
 	case <-timer.C:
+		verifPoint("wait.timeout", reqID)
 		s.popHandler(reqID)
 		return ua.StatusBadTimeout
 	}
@@ -959,6 +992,7 @@ func (s *SecureChannel) popHandler(reqID uint32) (chan *MessageBody, bool) {
 	if ok {
 		delete(s.handlers, reqID)
 	}
+	verifPoint("handlers.pop", reqID, ok)
 	return ch, ok
 }
 
@@ -977,11 +1011,14 @@ func (s *SecureChannel) SendRequest(ctx context.Context, req ua.Request, authTok
 }
 
 func (s *SecureChannel) SendRequestWithTimeout(ctx context.Context, req ua.Request, authToken *ua.NodeID, timeout time.Duration, h ResponseHandler) error {
+	verifPoint("send.begin", req)
 	s.reqLocker.waitIfLock()
+	verifPoint("send.afterGate", req)
 	active, err := s.getActiveChannelInstance()
 	if err != nil {
 		return err
 	}
+	verifPoint("send.afterActive", req, active)
 
 	return s.sendRequestWithTimeout(ctx, req, s.nextRequestID(), active, authToken, timeout, h)
 }
@@ -996,13 +1033,17 @@ func (s *SecureChannel) sendAsyncWithTimeout(
 	timeout time.Duration,
 ) (<-chan *MessageBody, error) {
 
+	verifPoint("send.beforeLock", reqID, instance, req)
 	instance.Lock()
 	defer instance.Unlock()
+	verifPoint("send.lockedInst", reqID, instance)
+	defer verifPoint("send.unlockInst", reqID, instance)
 
 	m, err := instance.newRequestMessage(req, reqID, authToken, timeout)
 	if err != nil {
 		return nil, err
 	}
+	verifPoint("send.numbered", reqID, instance, m.SequenceHeader.SequenceNumber)
 
 	var resp chan *MessageBody
 
@@ -1013,11 +1054,13 @@ func (s *SecureChannel) sendAsyncWithTimeout(
 		s.handlersMu.Lock()
 
 		if s.handlers[reqID] != nil {
+			verifPoint("handlers.register", reqID, false)
 			s.handlersMu.Unlock()
 			return nil, errors.Errorf("error: duplicate handler registration for request id %d", reqID)
 		}
 
 		s.handlers[reqID] = resp
+		verifPoint("handlers.register", reqID, true)
 		s.handlersMu.Unlock()
 	}
 
@@ -1036,6 +1079,7 @@ func (s *SecureChannel) sendAsyncWithTimeout(
 			number := instance.nextSequenceNumber()
 			binary.LittleEndian.PutUint32(chunk[16:], uint32(number))
 		}
+		verifPoint("send.chunk", reqID, instance, i, len(chunks), binary.LittleEndian.Uint32(chunk[16:]))
 
 		chunk, err = instance.signAndEncrypt(m, chunk)
 		if err != nil {
@@ -1091,6 +1135,8 @@ func (s *SecureChannel) writeMessageChunks(ctx context.Context, instance *channe
 			binary.LittleEndian.PutUint32(chunk[16:], uint32(number))
 		}
 
+		verifPoint("resp.chunk", reqID, instance, i, len(chunks), binary.LittleEndian.Uint32(chunk[16:]))
+
 		// Sign and encrypt after the final chunk bytes are in place, since the
 		// security footer covers the whole encoded chunk.
 		chunk, err = instance.signAndEncrypt(m, chunk)
@@ -1139,8 +1185,11 @@ func (s *SecureChannel) SendMsgWithContext(ctx context.Context, instance *channe
 	// we need to get a lock on the sequence number so we are sure to send them in the correct order.
 	instance.Lock()
 	defer instance.Unlock()
+	verifPoint("resp.lockedInst", reqID, instance)
+	defer verifPoint("resp.unlockInst", reqID, instance)
 
 	m := instance.newMessage(resp, typeID, reqID)
+	verifPoint("resp.numbered", reqID, instance, m.SequenceHeader.SequenceNumber)
 	if _, err := s.writeMessageChunks(ctx, instance, reqID, m, resp); err != nil {
 		return err
 	}
@@ -1163,8 +1212,11 @@ func (s *SecureChannel) sendResponseWithContext(ctx context.Context, instance *c
 	}
 	instance.Lock()
 	defer instance.Unlock()
+	verifPoint("resp.lockedInst", reqID, instance)
+	defer verifPoint("resp.unlockInst", reqID, instance)
 
 	m := instance.newMessage(resp, typeID, reqID)
+	verifPoint("resp.numbered", reqID, instance, m.SequenceHeader.SequenceNumber)
 	if _, err := s.writeMessageChunks(ctx, instance, reqID, m, resp); err != nil {
 		return err
 	}
